@@ -143,7 +143,8 @@ type mpos struct {
 	key    string
 	idx    int
 	isItem bool
-	cell   string // coverage cell of the enclosing field
+	cell   string   // coverage cell of the enclosing field
+	tnOf   []string // the position is a selected __typename field: possible type names of its object
 }
 
 func (m *model) positions(root *jv) []mpos {
@@ -179,7 +180,11 @@ func (m *model) positions(root *jv) []mpos {
 			if f.fieldDef != nil {
 				cell = m.cellOf(f.typ)
 			}
-			walk(mpos{path: pathAppend(p.path, f.key), t: f.typ, sets: f.sets, node: p.node.get(f.key), parent: p.node, key: f.key, cell: cell})
+			var tnOf []string
+			if f.fieldDef == nil {
+				tnOf = possibleNames(m.s, def)
+			}
+			walk(mpos{path: pathAppend(p.path, f.key), t: f.typ, sets: f.sets, node: p.node.get(f.key), parent: p.node, key: f.key, cell: cell, tnOf: tnOf})
 		}
 	}
 	walk(mpos{t: gast.NonNullNamedType(m.rootName(), nil), sets: []gast.SelectionSet{m.op.SelectionSet}, node: root})
@@ -293,7 +298,12 @@ func (g *dataGen) mutate1(root *jv, rootReplace bool) (*jv, string, string) {
 		if !isRoot || rootReplace {
 			ops = append(ops, "obj2arr")
 		}
-		ops = append(ops, "tn-unknown", "tn-missing", "tn-nonmember", "tn-nonstring", "tn-abstract-name", "tn-null", "extra-key", "extra-schema-key")
+		ops = append(ops, "tn-unknown", "tn-missing", "tn-nonmember", "tn-nonstring", "tn-abstract-name", "tn-null", "extra-key", "extra-schema-key",
+			"tn-degenerate", "tn-degenerate")
+	}
+	if p.tnOf != nil {
+		// the value a selected __typename field delivers (aliased or not)
+		ops = append(ops, "tnfield-degenerate", "tnfield-degenerate", "tnfield-other-name")
 	}
 	if def != nil && def.Kind == gast.Enum {
 		ops = append(ops, "enum-invalid", "enum-invalid", "enum-case", "enum-number")
@@ -362,6 +372,21 @@ func (g *dataGen) mutate1(root *jv, rootReplace bool) (*jv, string, string) {
 	case "tn-null":
 		p.node.set("__typename", jnull())
 		return root, at, p.cell
+	case "tn-degenerate":
+		p.node.set("__typename", jstr(g.degenerateName(possibleNames(g.m.s, def))))
+		return root, at, p.cell
+	case "tnfield-degenerate":
+		return setRoot(jstr(g.degenerateName(p.tnOf))), at, p.cell
+	case "tnfield-other-name":
+		// another possible type name when there is one (valid as a name, inconsistent with the
+		// object), else an unknown one
+		name := "Nope"
+		for _, n := range p.tnOf {
+			if p.node == nil || p.node.k != jStr || n != p.node.s {
+				name = n
+			}
+		}
+		return setRoot(jstr(name)), at, p.cell
 	case "tn-nonstring":
 		p.node.set("__typename", jnum("5"))
 		return root, at, p.cell
@@ -404,6 +429,16 @@ func (g *dataGen) mutate1(root *jv, rootReplace bool) (*jv, string, string) {
 		return setRoot(jnum(ex[g.draw(len(ex), "numx")])), at, p.cell
 	}
 	return root, "", ""
+}
+
+// degenerateName: strings that are close to "no name" or close to a valid name without being one.
+func (g *dataGen) degenerateName(valid []string) string {
+	v := "A"
+	if len(valid) > 0 {
+		v = valid[g.draw(len(valid), "dnv")]
+	}
+	c := []string{"", "", "", " ", "null", strings.ToLower(v), v + " ", " " + v, "\u0000", v + "\u0000", "__typename", strings.ToUpper(v) + "_"}
+	return c[g.draw(len(c), "dn")]
 }
 
 // nonMember names a real object type that is not a possible type of def ("Query" when
